@@ -68,7 +68,7 @@ class ForTargetDefCompileHandler(AbstractFuncdefCompileHandler[ExplorerScriptPar
         else:
             raise SsbCompilerError("A targeted routine must be 'for' an 'actor', 'object' or 'performer'.")
 
-        return routine_info, self.collect_ops()
+        return routine_info, self.collect_routine_ops()
 
     def get_new_routine_id(self, old_id: int) -> int:
         return exps_int(str(self.ctx.INTEGER()))
